@@ -5357,10 +5357,17 @@ class Parameterized(metaclass=ParameterizedMetaclass):
         # recreated and point to the new instance
         if _param__private.watchers:
             param_watchers = _param__private.watchers
+            # A watcher registered for several parameters is one object in
+            # all of their lists (batches de-duplicate on identity): it
+            # has to stay one object on the copy
+            rebound = {}
             for p, attrs in param_watchers.items():
                 for attr, watchers in attrs.items():
                     new_watchers = []
                     for watcher in watchers:
+                        if id(watcher) in rebound:
+                            new_watchers.append(rebound[id(watcher)])
+                            continue
                         watcher_args = list(watcher)
                         if watcher.inst is not None:
                             watcher_args[0] = self
@@ -5369,7 +5376,8 @@ class Parameterized(metaclass=ParameterizedMetaclass):
                             watcher_args[2] = _m_caller(self, fn._watcher_name)
                         elif get_method_owner(fn) is watcher.inst:
                             watcher_args[2] = getattr(self, fn.__name__)
-                        new_watchers.append(Watcher(*watcher_args))
+                        rebound[id(watcher)] = Watcher(*watcher_args)
+                        new_watchers.append(rebound[id(watcher)])
                     param_watchers[p][attr] = new_watchers
 
         state.pop('param', None)
